@@ -15,6 +15,16 @@ BUILT = {
             'Trusts the oracle (vkit/oracles/paraxial.py, cross-checked float64/longdouble) and the library material '
             'objects for the index of catalogue media; sign of the chief ray is not part of the statement and is not checked.',
             'DESIGN.md §4 C04'),
+    'C02': ('law monitor over the per-surface ray event log + closed-form reference tracer for planes/conics',
+            'Exploration: ~12k (quick) / ~1M (thorough) (ray, surface) events from generated lenses of all six shapes, '
+            'refracting and reflecting, tilted/decentred, incl. over-sized apertures and near-paraboloid/near-axial rays, '
+            'each checked for on-surface, on-incoming-ray, unit direction, vector Snell/reflection, half-space and '
+            'optical path with independently written shapes/frames; plane/conic lenses are also compared with an '
+            'independent closed-form tracer which decides the non-finite clause. Held = no event broke a law.',
+            'Trusts vkit/oracles/shapes.py (sag, analytic gradients via numpy.polynomial for Chebyshev, frames) and the '
+            'library material objects for indices; root choice among two valid sheet intersections follows the '
+            'documented nearest-vertex-plane convention.',
+            'DESIGN.md §4 C02'),
 }
 
 NOT_YET = {}
